@@ -37,6 +37,13 @@ overflow; a value of inf is inside an interval whose far end b*(1-j) is inf, a n
 Argument types (part "integer arguments"): the same numbers passed as Python ints (exact start*factor**k, +-1, up to
 2**128, far beyond the 2**53 where ints stop being doubles), as ints with a float stop, and as fractions.Fraction;
 the reference is the recurrence on their float() values (the sequence is one of floats).
+
+Factors at the edges (part "factors barely above 1 and huge factors"): 1 + 2**-k for every k up to 52 (the smallest
+double above 1), 1 + 10**-k while that is a double above 1, their one-ulp neighbours around the usual tolerance
+constants, and huge factors (2**10 ... 2**1000, 1e10 ... the largest double, where start*factor overflows) - with
+stops a few steps of the recurrence away, so the default count is short.  The statement demands a schedule ending at
+stop for every factor > 1; only where a step of the double recurrence makes no progress at all
+(start*factor == start) nothing is demanded.
 """
 import itertools
 from fractions import Fraction
@@ -165,6 +172,9 @@ def tier_bounds(tier):
             'int_starts': (1, 0, 2, 3, 2 ** 53 + 1),
             'int_factors': (10, 2, 3, 5, 7),
             'int_limit': 2 ** 128,
+            'edge_starts': (1.0, 0.0, 250.0, 0.25, 3.0, 1e-9, 5e-324, 1e300),
+            'edge_k': (0, 1, 2, 3, 5),
+            'edge_counts': (None, 9),
         }
     return {
         'starts': (1.0, 0.0, 0.5, 0.25, 1.5, 3.0, 10.0, 1e6, 1e-9, 5e-324, 2.0, 7.0, 0.1, 1e3, 1e-300,
@@ -196,6 +206,10 @@ def tier_bounds(tier):
         'int_starts': (1, 0, 2, 3, 7, 10, 1000, 2 ** 53 + 1, 10 ** 17 + 1, 2 ** 64 + 1),
         'int_factors': (10, 2, 3, 5, 7, 6, 100, 1000),
         'int_limit': 2 ** 256,
+        'edge_starts': (1.0, 0.0, 250.0, 0.25, 3.0, 1e-9, 5e-324, 1e300, 0.5, 1.5, 10.0, 1e6, 0.1, 1e-300, 1e-320,
+                        2.0 - 2.0 ** -52),
+        'edge_k': (0, 1, 2, 3, 4, 5, 8, 13, 21),
+        'edge_counts': (None, 0, 1, 2, 25, 'repeat'),
     }
 
 
@@ -228,6 +242,65 @@ def stops_for(start, factor, ks):
         add(x)
     if not start:
         for x in (0.25, 0.1, 5e-324, 0.0):
+            add(x)
+    return out
+
+
+def edge_factors():
+    """Factors at the edges of the valid range.  Barely above 1: 1 + 2**-k for every k from 1 to 52, 1 + 10**-k for
+    every k for which that is a double above 1, and the one-ulp neighbours of the latter (tolerance constants are
+    usually powers of ten).  Huge: powers of two up to 2**1000, powers of ten up to 1e300, the largest double."""
+    out = []
+
+    def add(x):
+        if x > 1.0 and x != INF and x not in out:
+            out.append(x)
+
+    for k in range(1, 53):
+        add(1.0 + 2.0 ** -k)
+    for k in range(1, 17):
+        f = 1.0 + 10.0 ** -k
+        add(f)
+        add(up(f))
+        add(down(f))
+    add(up(ONE_P))
+    for f in (2.0 ** 10, 2.0 ** 52, 2.0 ** 53 + 2.0, 2.0 ** 64, 2.0 ** 1000, 1e10, 1e100, 1e300, down(TOP), TOP):
+        add(f)
+    return tuple(out)
+
+
+def edge_stops(start, factor, ks):
+    """Stops on, one ulp below and one ulp above the k-th value (k in ks) of the uncapped recurrence from start
+    (from 1 after a start of 0), by repeated multiplication and with pow; the walk ends where a step makes no progress
+    or overflows.  After a start of 0 also 0.5 and 1.  Stops below start (invalid) are kept on purpose."""
+    base = start if start else 1.0
+    out, seen = [], set()
+
+    def add(x):
+        if x not in seen and x == x and abs(x) != INF:
+            seen.add(x)
+            out.append(x)
+
+    cur, k = base, 0
+    for want in sorted(ks):
+        while k < want:
+            nxt = cur * factor
+            if nxt <= cur or nxt == INF:
+                break
+            cur, k = nxt, k + 1
+        if k < want:
+            break
+        try:
+            p = base * factor ** want
+        except OverflowError:
+            p = cur
+        for x in (cur, p):
+            add(x)
+        for x in (cur, p):
+            add(up(x))
+            add(down(x))
+    if not start:
+        for x in (0.5, 1.0):
             add(x)
     return out
 
@@ -347,13 +420,14 @@ def invalid_kinds(p):
 
 
 def in_scope(p):
-    """DESIGN 5.1: a factor of 1 or 1+2**-52 only with an explicit count.  Also left out: default count where
+    """A factor of 1 only with an explicit count (the statement's "(factor > 1)").  Also left out: default count where
+    the reference does not arrive within STEP_CAP steps (a factor barely above 1 with a stop far away), and where
     the float recurrence can never arrive at stop (5e-324 * 1.1 == 5e-324) - there the clauses "grows by exactly
     factor" and "the last value is stop" cannot both hold in double arithmetic, so neither outcome is demanded."""
     if p['count'] is not None:
         return True
     factor = float(p['factor'])
-    if 1.0 <= factor <= ONE_P:
+    if factor == 1.0:
         return False
     start, stop = float(p['start']), float(p['stop'])
     if start >= 0 and stop >= start and stop > 0 and factor > 1:
@@ -830,6 +904,17 @@ def shard_int(arg):
     return t
 
 
+def shard_edge(arg):
+    start, factor, ks, counts = arg
+    t = inputs.Tally()
+    with Seam() as seam:
+        for stop in edge_stops(start, factor, ks):
+            for count in counts:
+                p = {'start': start, 'stop': stop, 'count': count, 'factor': factor, 'jitter': False}
+                run_point(seam, t, p, 12)
+    return t
+
+
 def shard_menu(arg):
     start, stop = arg
     t = inputs.Tally()
@@ -907,6 +992,13 @@ def run(ctx):
              'fractions.Fraction with the default count; for k <= 3 also count=2 with a jitter of 1/2 and -1 given '
              'as a Fraction x every draw sequence'))
 
+    edges = [(start, factor, B['edge_k'], B['edge_counts']) for factor in edge_factors() for start in B['edge_starts']]
+    totals.append(inputs.run_shards(
+        ctx, shard_edge, edges, part='factors barely above 1 and huge factors: start x factor x stop x count',
+        rule='jitter=False; factors 1+2**-k (k = 1..52), 1+10**-k (k = 1..15) with their 1-ulp neighbours, 2**10 .. '
+             '2**1000, 1e10 .. the largest double; stops on and 1 ulp around the k-th value of the recurrence (k in '
+             'edge_k), so the default count is short; default count where the double recurrence arrives at stop'))
+
     menu = [(a, b) for a in MENU['start'] for b in MENU['stop']]
     totals.append(inputs.run_shards(
         ctx, shard_menu, menu, part='edge menu: valid and invalid values of every parameter',
@@ -945,6 +1037,11 @@ def run(ctx):
                                               'numpy scalars, float subclasses'},
         'huge_counts': {'counts': [str(c) if c > 2 ** 70 else c for c in big_counts()], 'k': list(BIG_KS),
                         'values_examined': BIG_HEAD, 'observed_like_repeat_above': HEAD_ONLY_ABOVE},
+        'edge_factors': {'factors': list(edge_factors()),
+                         'stops': 'k-th value of the recurrence from start (k in edge_k) by repeated multiplication and '
+                                  'by pow, each with its two 1-ulp neighbours; after a start of 0 also 0.5 and 1',
+                         'not_explored': 'factors barely above 1 with a stop more than %d steps away (default count)'
+                                         % STEP_CAP},
         'consumption': 'one backoff_iter object: next(), for loop left early, islice chunk, for loop, asked again '
                        'after the end; on a disagreement the call is repeated with next() alone to tell the two apart',
         'once_per_point': ['twin iterator (keywords, defaults omitted) created before and read after the first',
@@ -959,7 +1056,9 @@ def run(ctx):
         'exhaustive over the float lattice only; reals between lattice points are not examined',
         'reference = the recurrence of the statement in IEEE double arithmetic (v*factor rounded once, min with stop)',
         'jitter bounds are inclusive with 2 ulp of slack for the rounding of b*(1-j) (DESIGN 5.1)',
-        'factor 1 and 1+2**-52 are explored with explicit counts only (DESIGN 5.1); the default count is not required '
+        'factor 1 is explored with explicit counts only (the statement says "(factor > 1)"); factors barely above 1 '
+        '(down to 1+2**-52) get the default count only with stops a few steps away (part "factors barely above 1"; '
+        'DESIGN 5.1 left them out because a far stop asks for ~10**15 values); the default count is not required '
         'to be minimal: only termination, the values and "last value is stop" are demanded',
         'default count is not explored where the double recurrence cannot reach stop (5e-324*1.1 == 5e-324): '
         'the statement is about reals there and fixes no float behaviour',
